@@ -23,10 +23,15 @@ func (s *Sess) computeLoopMods() {
 // havocMods havocs the regions of a mod set on st; regions written only on freshly allocated
 // objects keep their old contents below oldTop (quantified frame axiom).
 func (s *Sess) havocMods(st *State, mod map[string]bool, oldTop string) {
+	// the allocation counter moves first so that havoced regions are well-formed w.r.t. the new top
+	newTop := s.fresh("top", "Int")
+	s.assume(fmt.Sprintf("(<= %s %s)", st.top, newTop))
+	st.top = newTop
 	if mod["*"] {
 		// everything may change: start a new epoch
 		s.nfresh++
 		st.base = fmt.Sprintf("Hall%d", s.nfresh)
+		s.epochTop[st.base] = newTop
 		st.heap = map[string]string{}
 		s.havocCalls["*"] = true
 		return
@@ -38,8 +43,12 @@ func (s *Sess) havocMods(st *State, mod map[string]bool, oldTop string) {
 		}
 		old := s.region(st, k, sort)
 		st.heap[k] = s.fresh("Hv:"+k, sort)
-		if !mod[k] { // fresh-only writes
-			s.assume(fmt.Sprintf("(forall ((o Int)) (! (=> (< o %s) (= (select %s o) (select %s o))) :pattern ((select %s o))))", oldTop, st.heap[k], old, st.heap[k]))
+		s.wfRegion(st.heap[k], k, st.top)
+		if !mod[k] { // fresh-only writes: objects that existed before keep their contents
+			hf := s.fresh("Hf:"+k, sort)
+			s.wfRegion(hf, k, st.top)
+			s.cmds = append(s.cmds, Cmd{'a', fmt.Sprintf("(assert (forall ((o Int)) (! (=> (< o %s) (= (select %s o) (select %s o))) :pattern ((select %s o))))) ;@lambda (assert (= %s (lambda ((o Int)) (ite (< o %s) (select %s o) (select %s o)))))",
+				oldTop, st.heap[k], old, st.heap[k], st.heap[k], oldTop, old, hf), nil})
 		}
 	}
 }
@@ -99,7 +108,39 @@ func (s *Sess) loopEnv(li *loopInfo, heap *State, phiVal func(*ssa.Phi) Val) *CE
 }
 
 // resolveLocal maps a source-level local name to its value at the head of loop li.
+func (s *Sess) loopMapIter(li *loopInfo) (*mapIter, *ssa.Range) {
+	if li == nil {
+		return nil, nil
+	}
+	for b := range li.blocks {
+		for _, in := range b.Instrs {
+			if nx, ok := in.(*ssa.Next); ok && !nx.IsString {
+				if r, ok := nx.Iter.(*ssa.Range); ok && !li.blocks[r.Block()] {
+					return s.mapIters[r], r
+				}
+			}
+		}
+	}
+	return nil, nil
+}
+
 func (s *Sess) resolveLocal(li *loopInfo, name string, heap *State, phiVal func(*ssa.Phi) Val) (Val, bool) {
+	if name == "$mapiter" {
+		if mi, _ := s.loopMapIter(li); mi != nil {
+			return Val{parts: []Val{{t: mi.keys, typ: mi.m.Key()}, {t: mi.pos, typ: tInt}}}, true
+		}
+		return Val{}, false
+	}
+	if name == "$mappos" || name == "$maplen" {
+		if mi, r := s.loopMapIter(li); mi != nil {
+			if name == "$maplen" {
+				return Val{t: mi.n, typ: tInt}, true
+			}
+			H := s.region(heap, "C:$iterpos", "(Array Int Int)")
+			return Val{t: fmt.Sprintf("(select %s %s)", H, s.val(r).t), typ: tInt}, true
+		}
+		return Val{}, false
+	}
 	if name == "$iter" {
 		for _, phi := range headerPhis(li.header) {
 			if phi.Comment == "rangeindex" {
@@ -206,9 +247,6 @@ func (s *Sess) enterLoop(li *loopInfo, st *State, entryPreds []*ssa.BasicBlock) 
 	}
 	// havoc
 	s.havocMods(st, li.mod, st.top)
-	newTop := s.fresh("top", "Int")
-	s.assume(fmt.Sprintf("(<= %s %s)", st.top, newTop))
-	st.top = newTop
 	for _, p := range phis {
 		s.havocVal(p, st)
 	}
